@@ -88,8 +88,11 @@ def run(ctx, scale=1):
             "sq": "[" + c.replace("]", "]]") + "]",
         }
         for style, q in forms.items():
-            for pos, tpl in (("column", "select {q} from t9"), ("table", "select a9 from {q}"), ("alias", "select a9 as {q} from t9")):
-                if style == "dq" and pos != "column":
+            for pos, tpl in (("column", "select {q} from t9"), ("table", "select a9 from {q}"), ("alias", "select a9 as {q} from t9"),
+                             ("gencol", "create table t9 (a9 varchar(9), b9 varchar(9) as (concat(a9, {q})))")):
+                if style == "dq" and pos not in ("column", "gencol"):
+                    continue
+                if pos == "gencol" and style == "sq":
                     continue
                 for d in DIALECTS:
                     jobs.append((tpl.format(q=q), d, {}))
@@ -147,9 +150,12 @@ def run(ctx, scale=1):
         _, c, style, pos, d = mt
         rep.case(job[0] + "|" + d)
         rep.count("quoted", style + ":" + pos)
+        def gencol(v):
+            return {"create table": {"name": "t9", "columns": [{"name": "a9", "type": {"varchar": 9}}, {"name": "b9", "type": {"varchar": 9}, "value": {"concat": ["a9", v]}}]}}
+
         ident = {"column": {"from": "t9", "select": {"value": c}}, "table": {"from": c, "select": {"value": "a9"}},
-                 "alias": {"from": "t9", "select": {"name": c, "value": "a9"}}}[pos]
-        lit = {"from": "t9", "select": {"value": {"literal": c}}}
+                 "alias": {"from": "t9", "select": {"name": c, "value": "a9"}}, "gencol": gencol(c)}[pos]
+        lit = gencol({"literal": c}) if pos == "gencol" else {"from": "t9", "select": {"value": {"literal": c}}}
         if style == "bt":
             want = [C.cdump({"ok": C.canon(ident)})]
         elif style == "dq":
@@ -193,9 +199,12 @@ def replay(ctx, p):
     o = C.cdump(R.parse(p["sql"], p["dialect"]))
     print(o)
     c, pos, style, d = p["content"], p["pos"], p["style"], p["dialect"]
+    def gencol(v):
+        return {"create table": {"name": "t9", "columns": [{"name": "a9", "type": {"varchar": 9}}, {"name": "b9", "type": {"varchar": 9}, "value": {"concat": ["a9", v]}}]}}
+
     ident = {"column": {"from": "t9", "select": {"value": c}}, "table": {"from": c, "select": {"value": "a9"}},
-             "alias": {"from": "t9", "select": {"name": c, "value": "a9"}}}[pos]
-    lit = {"from": "t9", "select": {"value": {"literal": c}}}
+             "alias": {"from": "t9", "select": {"name": c, "value": "a9"}}, "gencol": gencol(c)}[pos]
+    lit = gencol({"literal": c}) if pos == "gencol" else {"from": "t9", "select": {"value": {"literal": c}}}
     if style == "sq" and d in ("common", "bigquery"):
         return o == C.cdump({"ok": C.canon(ident)})
     want = ident if (style == "bt" or d in ("common", "sqlserver") or style == "sq") else lit
